@@ -186,7 +186,14 @@ Theorem c10_any_capture_length : forall f n, wf_frame f = true ->
        alookup (cols m) k = None \/
        exists va vr, alookup (cols m) k = Some va /\ alookup (cols (ref_frame f)) k = Some vr /\ vprefix va vr) /\
     (exists k, mgetLI m cLayerStack = firstn k (map (fun x => layer_code (fst x)) (frame_layers f)) /\
-               length (mgetLI m cLayerSize) = length (mgetLI m cLayerStack)).
+               length (mgetLI m cLayerSize) = length (mgetLI m cLayerStack)) /\
+    (* ... and every column written by a header that lies COMPLETELY inside the capture (the first j headers, whenever
+       their bytes fit into what was captured; `applied`: the columns they write, none once inside a tunnel) HAS the
+       complete frame's value: "agrees with the model on every field whose header lies completely inside the capture" *)
+    (forall j k, (j <= length (frame_chain f))%nat ->
+       (length (concat (map lhdr (firstn j (frame_chain f)))) <= length (firstn n (encode_frame f)))%nat ->
+       In k (fkeys (applied false (firstn j (frame_chain f)))) ->
+       alookup (cols m) k = alookup (cols (ref_frame f)) k).
 Proof. exact any_cut. Qed.
 Print Assumptions c10_any_capture_length.
 
@@ -218,9 +225,12 @@ Example c10_any_capture_nonvacuous :
   match parse_packet empty_pcfg empty_msg (firstn n (encode_frame f)) with
   | Ok m => mgetLI m cMplsLabel = firstn 2 (map fst (fMpls f)) /\ mgetLI m cMplsTtl = firstn 2 (map snd (fMpls f)) /\
             mgetLI m cLayerStack = firstn (2 + length (fVlans f)) (map (fun x => layer_code (fst x)) (frame_layers f)) /\
-            alookup (cols m) cSrcAddr = None
+            alookup (cols m) cSrcAddr = None /\
+            (* the Ethernet header lies completely inside the capture: its columns are there, with the frame's values *)
+            alookup (cols m) cSrcMac = Some (VI (fSrc f)) /\ alookup (cols m) cDstMac = Some (VI (fDst f)) /\
+            In cSrcMac (fkeys (applied false (firstn 1 (frame_chain f))))
   | _ => False end.
-Proof. vm_compute. repeat split. Qed.
+Proof. vm_compute. repeat split; auto. Qed.
 
 Example c10_any_capture_nonvacuous_srv6 :
   let f := gcase gen_frame 1 11 in
@@ -241,6 +251,7 @@ From GF Require Import Proofs.SFlowE2E.
 Theorem c10_ipfix_frame_section_any_length : forall f n m0 base up,
   wf_frame f = true -> base_ok m0 ->
   exists m1, parse_packet empty_pcfg m0 (firstn n (encode_frame f)) = Ok m1 /\ cols_ok m0 m1 f /\ layers_ok m1 f /\
+    complete_ok m0 m1 f (length (firstn n (encode_frame f))) /\
     nf_field empty_prodcfg 10 base up m0 315 (firstn n (encode_frame f)) =
     Ok (let m2 := msetI m1 cPackets 1 in if mgetI m2 cBytes =? 0 then msetI m2 cBytes (lenN (firstn n (encode_frame f))) else m2).
 Proof. exact ipfix_frame_section_cut. Qed.
